@@ -305,5 +305,6 @@ func TestC17(t *testing.T) {
 	} else if s.Shard < 4 {
 		nproc = 1
 	}
-	kit.Campaign(s, t, "processes", "processes", nproc, genC17Proc(maxW, maxOps), runProc)
+	// every other shard's cases start from an empty log (creation race)
+	kit.Campaign(s, t, "processes", "processes", nproc, genC17Proc(maxW, maxOps, s.Shard%2 == 0), runProc)
 }
